@@ -123,4 +123,16 @@ CHECKS = {
                 "the theorem covers all of them at the granularity of whole Write calls",
         "technique": "Lean 4 proof (interleaving induction, corollary of the C01 round trip, pointwise dispatch) + regenerated tie lemmas + concurrent correspondence runs on real transports",
     },
+    "C11": {
+        "text": "Lean 4 invariant over all action sequences of the client machine (Call = register / Write in progress / "
+                "select / returned; Subscribe; OnDisconnect; reply and event dispatch; read failure; local close; write "
+                "failure; asynchronous closes) built on the C17 handler table: an outcome is final; a call on a closed or "
+                "write-dead stream fails at once; from every reachable state, after the loss and the scheduled closes no "
+                "call is left waiting, a call still inside Write returns when the Write does, every disconnect callback "
+                "registered before ran exactly once and every subscription channel is closed; a reply dispatched before "
+                "Send returned is what the call returns; tied by regenerated flows of client.go / endpoint.go and by "
+                "scripted fault runs on the real client",
+        "note": "time bounds are measured, not proved; the model's atomic actions are the critical sections and channel operations of the real code",
+        "technique": "Lean 4 proof (invariant by induction over action sequences, progress after loss) + regenerated tie lemmas + scripted fault-injection correspondence and concurrent storms",
+    },
 }
